@@ -5,6 +5,7 @@ import Nsq.Proofs.AggregateMerge
 import Nsq.Proofs.AggregateFetch
 import Nsq.Proofs.AggregateDedup
 import Nsq.Proofs.Fetch
+import Nsq.Proofs.AggregateWrap
 /-!
 # C18 — nsqadmin's cluster view equals the sum of its parts
 
@@ -577,5 +578,59 @@ answers `403 {"https_port": N}` on both ports it sends as many requests as it is
 theorem fetch_with_stale_condition_never_stops (fuel : Nat) :
     (getV1Stale (fun _ => .forbidden (some 2)) true fuel ⟨false, 1⟩).2.length = fuel :=
   stale_uses_all_fuel 2 fuel _
+
+/-! ## Integers: where Go's int64 sums can wrap, and when they cannot
+
+The model above computes with `Int`. nsqadmin computes every counter with int64 `+`, `-`, `+=`:
+`TopicStats.Add` (8 fields), `ChannelStats.Add` (13 fields + `ClientCount int`), GetNSQDStats
+(`MemoryDepth = Depth - BackendDepth`, `DeliveryMsgCount = Zone + Region + Global`), nodeHandler
+(`totalMessages`, `totalClients`) and counterHandler (`MessageCount +=`). These are *all* the places
+(the regenerated `+=` tables `Tie.AdminAgg.*_counters_summed_once` list the fields). -/
+
+section Int64
+open Nsq.Model.Int64 Nsq.Proofs.Int64 Nsq.Proofs.AggregateWrap
+
+/-- **int64_sum_wraps.** A running int64 sum is the exact sum reduced into [-2^63, 2^63) — whatever happens
+to intermediate results. -/
+theorem int64_sum_wraps (l : List Int) : goSum l = wrap64 l.sum := goSum_eq l
+
+/-- **int64_wrap_exact.** The shown sum equals the exact sum *iff* the exact sum fits into int64. -/
+theorem int64_wrap_exact (l : List Int) : goSum l = l.sum ↔ inRange l.sum := by
+  rw [goSum_eq]; exact wrap64_eq_iff _
+
+/-- **int64_no_wrap_sufficient.** The side condition under which `sum_fields` / `channels_merge` speak about
+what nsqadmin shows: counters are non-negative (as nsqd reports them) and their exact sum is below 2^63. -/
+theorem int64_no_wrap_sufficient (l : List Int) (hpos : ∀ x ∈ l, 0 ≤ x) (h : l.sum < two63) :
+    goSum l = l.sum := by
+  rw [goSum_eq]
+  apply wrap64_id
+  have := sum_nonneg l hpos
+  unfold inRange two63 at *
+  omega
+
+/-- The condition is needed: two nodes reporting 2^62 each already show a negative depth. -/
+theorem int64_sum_can_wrap : goSum [4611686018427387904, 4611686018427387904] = -9223372036854775808 := by
+  decide
+
+example : ∀ x ∈ [(3 : Int), 4], 0 ≤ x := by decide
+example : goSum [3, 4] = 7 := by decide
+
+/-- **counters_go_sum.** All 13 counters at once: aggregating node reports with Go's arithmetic gives the
+model's (`Int`) aggregate wrapped field by field; with every exact field in range, exactly the model's. -/
+theorem counters_go_sum (l : List Counters) (acc : Counters) :
+    l.foldl Counters.goAdd (Counters.wrap acc) = Counters.wrap (l.foldl Counters.add acc) ∧
+    (Counters.fits (l.foldl Counters.add acc) →
+      l.foldl Counters.goAdd (Counters.wrap acc) = l.foldl Counters.add acc) := by
+  refine ⟨foldl_add64_wrap l acc, fun h => ?_⟩
+  rw [foldl_add64_wrap, wrap_of_inRange _ h]
+
+/-- **derived_fields_go.** `memory_depth` / `delivery_msg_count` recomputed in int64 from wrapped inputs are
+the wrapped `derive` of the model. -/
+theorem derived_fields_go (c : Counters) :
+    Counters.wrap (Counters.goDerive (Counters.wrap c)) = Counters.wrap c.derive := derive64_wrap c
+
+example : (Counters.goDerive { depth := 5, backendDepth := 2, zoneLocal := 1, regionLocal := 1, globalMsg := 1 }).memDepth = 3 := by decide
+
+end Int64
 
 end Nsq.Props.C18
